@@ -277,7 +277,7 @@ func main() {
 			violation = true
 			continue
 		}
-		if c.Crash && !r.timedOut && r.err != nil && (strings.Contains(r.out, "fatal error:") || strings.Contains(r.out, "goroutine stack exceeds") || strings.Contains(r.out, "\npanic: ")) {
+		if c.Crash && !r.timedOut && r.err != nil && (strings.Contains(r.out, "fatal error:") || strings.Contains(r.out, "goroutine stack exceeds") || strings.Contains(r.out, "\npanic: ") || strings.Contains(r.out, "SIGSEGV: segmentation violation") || strings.Contains(r.out, "unexpected fault address")) {
 			// the process was killed by the runtime: the case in flight is the violation
 			inflight := filepath.Join(work, fmt.Sprintf("wd-%d", sh), "inflight.json")
 			if b, e := os.ReadFile(inflight); e == nil {
@@ -286,7 +286,7 @@ func main() {
 				_ = os.WriteFile(dst, b, 0o644)
 				first := ""
 				for _, l := range strings.Split(r.out, "\n") {
-					if strings.Contains(l, "fatal error:") || strings.HasPrefix(l, "panic: ") {
+					if strings.Contains(l, "fatal error:") || strings.HasPrefix(l, "panic: ") || strings.HasPrefix(l, "SIGSEGV") || strings.Contains(l, "unexpected fault address") {
 						first = strings.TrimSpace(l)
 						break
 					}
